@@ -32,6 +32,21 @@ FLAGS = [
      'attached (or not at all): side condition of C12_parsed_signature_is_covered', None),
 ]
 
+def eval_with_retry(prop, imports, case_type, cases, shard):
+    """coq_eval_cases, and a shard whose coqc died without a result (time limit on a loaded machine) is re-run alone in small pieces
+    before it counts (DESIGN section 7)"""
+    mism, errs = coq_eval_cases(prop, imports, case_type, cases, shard=shard)
+    failed = sorted(set(int(m.group(1)) for e in errs for m in [re.match(r'shard (\d+):', e)] if m))
+    if not failed:
+        return mism, errs
+    errs2 = [e for e in errs if not re.match(r'shard (\d+):', e)]
+    for k in failed:
+        idx = list(range(k * shard, min(len(cases), (k + 1) * shard)))
+        m2, e2 = coq_eval_cases(prop + 'retry', imports, case_type, [cases[i] for i in idx], shard=max(20, shard // 8))
+        mism += [idx[j] for j in m2]
+        errs2 += ['retry of shard %d: %s' % (k, x) for x in e2]
+    return sorted(set(mism)), errs2
+
 def run_harness(v, args, seed):
     rc, out = sh([harness_bin('c12')] + [str(a) for a in args], timeout=1500, env={'VERIF_SEED': str(seed)})
     lines = [l for l in out.splitlines() if '\t' in l]
@@ -126,7 +141,7 @@ def main(argv):
 
     if v.corr_ok and cases:
         # (X) model vs implementation
-        mism, errs = coq_eval_cases(PROP, IMPORTS, 'c12case', cases, shard=250 if tier == 'quick' else 600)
+        mism, errs = eval_with_retry(PROP, IMPORTS, 'c12case', cases, 250 if tier == 'quick' else 300)
         v.obligation('correspondence: model = implementation on %d cases (vm_compute inside Coq)' % len(cases), not mism and not errs,
                      ('%d mismatches; ' % len(mism)) + '; '.join(errs)[:600] if (mism or errs) else '')
         shown = set()
